@@ -12,18 +12,46 @@ open GoRes GoRes.Json GoRes.Codec
 /-- **reference bytes**: for every string encoding, of every length, `Ref.MarshalJSON`
 assembles exactly `{"rid":<enc>}` … -/
 theorem ref_bytes (enc : Str) : marshalRef enc = refPrefix ++ enc ++ [125] := by
-  sorry
+  have h1 : copyAt (List.replicate (enc.length + 8) 0) 0 refPrefix
+      = refPrefix ++ List.replicate (enc.length + 1) 0 := by
+    rw [copyAt_zero _ _ (by simp [refPrefix])]
+    simp [refPrefix]
+  have h2 : copyAt (refPrefix ++ List.replicate (enc.length + 1) 0) 7 enc
+      = (refPrefix ++ enc) ++ [0] := by
+    rw [copyAt_append_left' _ _ _ 7 (by simp [refPrefix]), copyAt_zero _ _ (by simp)]
+    simp [List.drop_replicate]
+  unfold marshalRef
+  simp only [h1, h2]
+  exact set_append_last _ _ _ _ (by simp [refPrefix])
 
 /-- … and `SoftRef.MarshalJSON` exactly `{"rid":<enc>,"soft":true}` -/
 theorem softref_bytes (enc : Str) : marshalSoftRef enc = refPrefix ++ enc ++ softRefSuffix := by
-  sorry
+  have h1 : copyAt (List.replicate (enc.length + 20) 0) 0 refPrefix
+      = refPrefix ++ List.replicate (enc.length + 13) 0 := by
+    rw [copyAt_zero _ _ (by simp [refPrefix])]
+    simp [refPrefix]
+  have h2 : copyAt (refPrefix ++ List.replicate (enc.length + 13) 0) 7 enc
+      = (refPrefix ++ enc) ++ List.replicate 13 0 := by
+    rw [copyAt_append_left' _ _ _ 7 (by simp [refPrefix]), copyAt_zero _ _ (by simp)]
+    simp
+  unfold marshalSoftRef
+  simp only [h1, h2]
+  rw [copyAt_append_left' _ _ _ _ (by simp [refPrefix]), copyAt_zero _ _ (by simp [softRefSuffix])]
+  simp [softRefSuffix]
 
 /-- **data value bytes**: objects and arrays are wrapped as `{"data":<enc>}`, everything else
 is passed through -/
 theorem datavalue_bytes (enc : Str) :
     marshalDataValue enc =
       if enc.head? = some 91 ∨ enc.head? = some 123 then dataPrefix ++ enc ++ [125] else enc := by
-  sorry
+  unfold marshalDataValue
+  cases enc with
+  | nil => simp
+  | cons c r =>
+    simp only [List.head?_cons, Option.some.injEq]
+    split
+    · exact datavalue_wrapped (c :: r)
+    · rfl
 
 /-- the wrapped tree of a value -/
 def wrap (j : J) : J := if j.isObj || j.isArr then .obj [(b!"data", j)] else j
@@ -31,12 +59,12 @@ def wrap (j : J) : J := if j.isObj || j.isArr then .obj [(b!"data", j)] else j
 /-- **data-value round trip**: unmarshalling the marshalled value gives the value back, for
 every JSON value -/
 theorem datavalue_roundtrip (j : J) : unmarshalDataValue (wrap j) = some j := by
-  sorry
+  cases j <;> simp [wrap, J.isObj, J.isArr, unmarshalDataValue, member]
 
 /-- arrays are not data values; objects without a `data` member neither -/
 theorem datavalue_rejects (items : List J) (ms : List (Str × J)) (h : member ms b!"data" = none) :
     unmarshalDataValue (.arr items) = none ∧ unmarshalDataValue (.obj ms) = none := by
-  sorry
+  simp [unmarshalDataValue, h]
 
 /-- the marshalled bytes are the rendering of the wrapped tree (numbers as `encoding/json`
 writes them: starting with a digit or `-`) -/
@@ -45,27 +73,53 @@ def StartsLikeNumber : J → Prop
   | _ => True
 
 theorem marshal_is_wrap (j : J) (h : StartsLikeNumber j) : marshalDataValueJ j = render (wrap j) := by
-  sorry
+  unfold marshalDataValueJ
+  rw [datavalue_bytes]
+  cases j with
+  | null => simp [render, wrap, J.isObj, J.isArr]
+  | bool b => cases b <;> simp [render, wrap, J.isObj, J.isArr]
+  | num t =>
+    obtain ⟨c, r, rfl, h1, h2⟩ := h
+    simp [render, wrap, J.isObj, J.isArr, h1, h2]
+  | str raw => simp [render, wrap, J.isObj, J.isArr]
+  | arr items => simp [render, wrap, J.isObj, J.isArr, renderMembers, dataPrefix]
+  | obj ms => simp [render, wrap, J.isObj, J.isArr, renderMembers, dataPrefix]
 
 /-- **Equal is an equivalence** … -/
 theorem equal_refl (v : Value) : equal v v = true := by
-  sorry
+  unfold equal; cases h : v.typ <;> simp
 theorem equal_symm (v w : Value) : equal v w = equal w v := by
-  sorry
+  unfold equal
+  by_cases h : v.typ = w.typ
+  · rw [h]; cases w.typ <;> simp [eq_comm]
+  · have h' : ¬ w.typ = v.typ := fun e => h e.symm
+    simp [h, h']
 theorem equal_trans (u v w : Value) (h1 : equal u v = true) (h2 : equal v w = true) : equal u w = true := by
-  sorry
+  unfold equal at *
+  by_cases huv : u.typ = v.typ
+  · by_cases hvw : v.typ = w.typ
+    · have huw : u.typ = w.typ := huv.trans hvw
+      rw [huv] at h1; rw [huw]; rw [hvw] at h1 h2
+      cases hw : w.typ <;> simp [hw] at h1 h2 ⊢ <;> exact h1.trans h2
+    · simp [hvw] at h2
+  · simp [huv] at h1
 
 /-- … **that implies equality of what the values mean** (type and information-carrying part) -/
 theorem equal_sound (v w : Value) (h : equal v w = true) : meaning v = meaning w := by
-  sorry
+  unfold equal at h
+  by_cases hvw : v.typ = w.typ
+  · unfold meaning
+    rw [hvw] at h ⊢
+    cases hw : w.typ <;> simp [hw] at h ⊢ <;> exact h
+  · simp [hvw] at h
 
 /-- **classification** as the protocol defines it: anything that is not an object or array is a
 primitive; arrays are invalid … -/
 theorem classify_primitive (j : J) (h : j.isObj = false) (h' : j.isArr = false) :
     classify j = some ⟨.primitive, render j, [], []⟩ := by
-  sorry
+  cases j <;> simp [classify, J.isObj, J.isArr] at *
 theorem classify_array (items : List J) : classify (.arr items) = none := by
-  sorry
+  simp [classify]
 
 /-- … `{"rid":r}` is a reference (soft with `"soft":true`) when `r` is a valid resource id and
 invalid otherwise or when mixed with `action`/`data` … -/
@@ -74,46 +128,105 @@ theorem classify_reference (r : Str) (soft : Bool) (extra : List (Str × J))
     (classify (.obj ([(b!"rid", .str r), (b!"soft", .bool soft)] ++ extra))).map (fun v => (v.typ, v.rid)) =
       if r.isEmpty ∨ isValidRIDB r = false then none
       else some (if soft then VType.softReference else VType.reference, r) := by
-  sorry
+  have hrid : member ([(b!"rid", .str r), (b!"soft", .bool soft)] ++ extra) b!"rid" = some (.str r) := by
+    rw [member_append_of_right_none _ _ _ (fun m hm => (hx m hm).1)]; simp [member]
+  have hsoft : member ([(b!"rid", .str r), (b!"soft", .bool soft)] ++ extra) b!"soft" = some (.bool soft) := by
+    rw [member_append_of_right_none _ _ _ (fun m hm => (hx m hm).2.1)]; simp [member]
+  have hact : member ([(b!"rid", .str r), (b!"soft", .bool soft)] ++ extra) b!"action" = none := by
+    rw [member_append_of_right_none _ _ _ (fun m hm => (hx m hm).2.2.1)]; simp [member]
+  have hdata : member ([(b!"rid", .str r), (b!"soft", .bool soft)] ++ extra) b!"data" = none := by
+    rw [member_append_of_right_none _ _ _ (fun m hm => (hx m hm).2.2.2)]; simp [member]
+  simp only [classify, hrid, hsoft, hact, hdata]
+  by_cases he : r.isEmpty = true
+  · simp [he]
+  · by_cases hv : isValidRIDB r = true
+    · simp [he, hv]
+    · simp [he, hv]
 theorem classify_reference_mixed (r : Str) (ms : List (Str × J)) (k : Str) (x : J)
     (hk : k = b!"action" ∨ k = b!"data") (hx : x ≠ .null ∨ k = b!"data")
     (hm : member ((b!"rid", .str r) :: ms ++ [(k, x)]) b!"rid" = some (.str r)) :
     classify (.obj ((b!"rid", .str r) :: ms ++ [(k, x)])) = none := by
-  sorry
+  have hkx := member_append_single ((b!"rid", .str r) :: ms) k x
+  generalize hs : member ((b!"rid", J.str r) :: ms ++ [(k, x)]) b!"soft" = sm
+  rcases hk with rfl | rfl
+  · have hxn : x ≠ .null := by
+      rcases hx with h | h
+      · exact h
+      · exact absurd h (by decide)
+    simp only [classify, hm, hkx, hs]
+    cases x with
+    | null => exact absurd rfl hxn
+    | _ => rcases sm with _ | (_|_|_|_|_|_) <;> simp
+  · generalize ha : member ((b!"rid", J.str r) :: ms ++ [(b!"data", x)]) b!"action" = am
+    simp only [classify, hm, hkx, hs, ha]
+    rcases sm with _ | (_|_|_|_|_|_) <;> rcases am with _ | (_|_|_|_|_|_) <;> simp
 
 /-- … `{"action":"delete"}` is the delete action, any other action is invalid … -/
 theorem classify_delete (a : Str) : (classify (.obj [(b!"action", .str a)])).map (·.typ) =
     if a = b!"delete" then some VType.delete else none := by
-  sorry
+  have h1 : member [(b!"action", J.str a)] b!"rid" = none := by simp [member]
+  have h2 : member [(b!"action", J.str a)] b!"soft" = none := by simp [member]
+  have h3 : member [(b!"action", J.str a)] b!"action" = some (.str a) := by simp [member]
+  have h4 : member [(b!"action", J.str a)] b!"data" = none := by simp [member]
+  simp only [classify, h1, h2, h3, h4]
+  by_cases h : a = b!"delete" <;> simp [h]
 
 /-- … `{"data":d}` is a data value when `d` is an object or array and the primitive `d` otherwise;
 an object with none of the reserved members is invalid -/
 theorem classify_data (d : J) : (classify (.obj [(b!"data", d)])).map (fun v => (v.typ, v.inner)) =
     some (if d.isObj || d.isArr then VType.data else VType.primitive, render d) := by
-  sorry
+  have h1 : member [(b!"data", d)] b!"rid" = none := by simp [member]
+  have h2 : member [(b!"data", d)] b!"soft" = none := by simp [member]
+  have h3 : member [(b!"data", d)] b!"action" = none := by simp [member]
+  have h4 : member [(b!"data", d)] b!"data" = some d := by simp [member]
+  simp only [classify, h1, h2, h3, h4]
+  cases d <;> simp [J.isObj, J.isArr]
 theorem classify_other_object (ms : List (Str × J))
     (h : ∀ m ∈ ms, m.1 ≠ b!"rid" ∧ m.1 ≠ b!"soft" ∧ m.1 ≠ b!"action" ∧ m.1 ≠ b!"data") :
     classify (.obj ms) = none := by
-  sorry
+  have h1 := member_none_of_forall_ne ms _ (fun m hm => (h m hm).1)
+  have h2 := member_none_of_forall_ne ms _ (fun m hm => (h m hm).2.1)
+  have h3 := member_none_of_forall_ne ms _ (fun m hm => (h m hm).2.2.1)
+  have h4 := member_none_of_forall_ne ms _ (fun m hm => (h m hm).2.2.2)
+  simp only [classify, h1, h2, h3, h4]
 
 /-- **a response is exactly one of result, resource or error**, whatever was received -/
 theorem response_exactly_one (j : Option J) :
     ([hasError (parseResponse j), hasResource (parseResponse j), hasResult (parseResponse j)].count true) = 1 := by
-  sorry
+  generalize parseResponse j = r
+  cases r <;> rfl
 
 /-- **what the service publishes is classified as what it is and decodes to the supplied data**:
 the three envelopes of `Model/Req.lean` (with or without meta) -/
 theorem service_result (v : J) (metaMember : List (Str × J)) (hm : ∀ m ∈ metaMember, m.1 = b!"meta") :
     parseResponse (some (.obj (metaMember ++ [(b!"result", v)]))) = .result (render v) := by
-  sorry
+  have h1 : member (metaMember ++ [(b!"result", v)]) b!"error" = none := by
+    rw [member_append_of_left_none _ _ _ (meta_ne _ hm _ (by decide))]; simp [member]
+  have h2 : member (metaMember ++ [(b!"result", v)]) b!"resource" = none := by
+    rw [member_append_of_left_none _ _ _ (meta_ne _ hm _ (by decide))]; simp [member]
+  have h3 := member_append_single metaMember b!"result" v
+  simp [parseResponse, h1, h2, h3]
 theorem service_resource (rid : Str) (hne : rid ≠ []) (metaMember : List (Str × J)) (hm : ∀ m ∈ metaMember, m.1 = b!"meta") :
     parseResponse (some (.obj (metaMember ++ [(b!"resource", .obj [(b!"rid", .str rid)])]))) = .resource rid := by
-  sorry
+  have h1 : member (metaMember ++ [(b!"resource", .obj [(b!"rid", .str rid)])]) b!"error" = none := by
+    rw [member_append_of_left_none _ _ _ (meta_ne _ hm _ (by decide))]; simp [member]
+  have h2 := member_append_single metaMember b!"resource" (.obj [(b!"rid", .str rid)])
+  have h3 : member [(b!"rid", J.str rid)] b!"rid" = some (.str rid) := by simp [member]
+  simp [parseResponse, h1, h2, h3, hne]
 theorem service_error (code msg : Str) (metaMember : List (Str × J)) (hm : ∀ m ∈ metaMember, m.1 = b!"meta") :
     parseResponse (some (.obj ([(b!"error", .obj [(b!"code", .str code), (b!"message", .str msg)])] ++ metaMember))) = .error code := by
-  sorry
+  have h1 : member ([(b!"error", .obj [(b!"code", .str code), (b!"message", .str msg)])] ++ metaMember) b!"error"
+      = some (.obj [(b!"code", .str code), (b!"message", .str msg)]) := by
+    rw [member_append_of_right_none _ _ _ (meta_ne _ hm _ (by decide))]; simp [member]
+  have h2 : member ([(b!"error", .obj [(b!"code", .str code), (b!"message", .str msg)])] ++ metaMember) b!"resource"
+      = none := by
+    rw [member_append_of_right_none _ _ _ (meta_ne _ hm _ (by decide))]; simp [member]
+  have h3 : member [(b!"code", J.str code), (b!"message", J.str msg)] b!"code" = some (.str code) := by simp [member]
+  have h4 : member [(b!"code", J.str code), (b!"message", J.str msg)] b!"message" = some (.str msg) := by simp [member]
+  simp only [parseResponse, h1, h2, h3, h4]
+  simp
 theorem invalid_is_internal_error : parseResponse none = .error internalCode ∧ parseResponse (some (.obj [])) = .error internalCode := by
-  sorry
+  constructor <;> rfl
 
 /-! ## non-vacuity -/
 example : marshalRef b!"\"x.y\"" = b!"{\"rid\":\"x.y\"}" := by decide
